@@ -163,7 +163,7 @@ KILL_CLASSES = ["mkdir", "mkdirat", "openat", "write", "fallocate", "ftruncate",
 def kill_points(base, max_points=None):
     """(syscall, n) for every occurrence n of every syscall of KILL_CLASSES on the busiest non-main thread."""
     pids = list(base.counts_by_pid)
-    threads = pids[1:] if len(pids) > 1 else pids
+    threads = pids
     pts = []
     for nm in KILL_CLASSES:
         mx = max([base.counts_by_pid[t].get(nm, 0) for t in threads] or [0])
@@ -217,7 +217,7 @@ def leg_kill_sweep(cases, flavour, max_points=40, jobs=8):
         def fresh():
             d = os.path.join(C.scratch_root(), f"kill{next(E._counter)}")
             shutil.rmtree(d, ignore_errors=True)
-            shutil.copytree(tmpl, d, symlinks=True)
+            copy_tree(tmpl, d)
             return d
         vops = case["victim"] if isinstance(case["victim"], list) else [case["victim"]]
         if len(vops) > 1:
@@ -425,7 +425,7 @@ def leg_observer_sweep(flavour, tier, jobs=8):
         def fresh():
             d = os.path.join(C.scratch_root(), f"obs{next(E._counter)}")
             shutil.rmtree(d, ignore_errors=True)
-            shutil.copytree(tmpl, d, symlinks=True)
+            copy_tree(tmpl, d)
             return d
         sc = fresh()
         before = E.run_impl(flavour, "\n".join(case["observers"]) + "\n", scratch=sc, reuse=True)[0]
@@ -509,13 +509,13 @@ def leg_fault_injection(cases, flavour, tier, jobs=8):
         def fresh():
             d = os.path.join(C.scratch_root(), f"flt{next(E._counter)}")
             shutil.rmtree(d, ignore_errors=True)
-            shutil.copytree(tmpl, d, symlinks=True)
+            copy_tree(tmpl, d)
             return d
         sc = fresh()
         base = T.run_traced(flavour, [case["victim"]], scratch=sc, reuse=True, env_extra=WORKER, extra_trace=ALLNAMES)
         shutil.rmtree(sc, ignore_errors=True)
         pids = list(base.counts_by_pid)
-        threads = pids[1:] if len(pids) > 1 else pids      # the main thread only starts up and joins
+        threads = pids      # every thread: with an attached tracer the first thread seen need not be the main one
         for cls in FAULT_CALLS:
             names = cls.split(",")
             mx = max([sum(base.counts_by_pid[t].get(nm, 0) for nm in names) for t in threads] or [0])
@@ -686,7 +686,7 @@ def leg_writer_faults(flavour, tier, jobs=8):
         base = T.run_traced(flavour, case["ops"], scratch=sc, env_extra=WORKER, extra_trace=ALLNAMES)
         shutil.rmtree(sc, ignore_errors=True)
         pids = list(base.counts_by_pid)
-        threads = pids[1:] if len(pids) > 1 else pids
+        threads = pids
         for cls in WRITER_FAULT_CALLS:
             names = cls.split(",")
             mx = max([sum(base.counts_by_pid[t].get(nm, 0) for nm in names) for t in threads] or [0])
@@ -841,6 +841,14 @@ def fault_cases(r):
         {"setup": base + [w_oneshot("s", "sha256", key, d)], "victim": f"metadata s c0 {hx(key)}", "key": key, "data": d, "algo": "sha256", "kind": "lookup", "others": others},
         {"setup": base + [w_oneshot("s", "sha256", key, d)], "victim": f"metadata a c0 {hx(key)}", "key": key, "data": d, "algo": "sha256", "kind": "lookup", "others": others},
         {"setup": base + [w_oneshot("s", "sha256", key, d)], "victim": f"copy s c0 {hx(key)} out/dest", "key": key, "data": d, "algo": "sha256", "kind": "copy", "others": others},
+        # extraction onto a path that already IS the content file (an earlier hard link of the entry): whatever call
+        # of the same-file test or of the copy fails, the stored copy is not the one that pays for it
+        {"setup": base + [w_oneshot("s", "sha256", key, d), f"hard_link_hash_unchecked s c0 {sri_tok('sha256', d)} out/dest"],
+         "victim": f"copy s c0 {hx(key)} out/dest", "key": key, "data": d, "algo": "sha256", "kind": "copy", "others": others},
+        {"setup": base + [w_oneshot("s", "sha256", key, d), f"hard_link_hash_unchecked s c0 {sri_tok('sha256', d)} out/dest"],
+         "victim": f"copy a c0 {hx(key)} out/dest", "key": key, "data": d, "algo": "sha256", "kind": "copy", "others": others},
+        {"setup": base + [w_oneshot("s", "sha256", key, d), f"hard_link_hash_unchecked s c0 {sri_tok('sha256', d)} out/dest"],
+         "victim": f"copy_hash_unchecked s c0 {sri_tok('sha256', d)} out/dest", "key": key, "data": d, "algo": "sha256", "kind": "copy", "others": others},
         {"setup": base + [w_oneshot("s", "sha256", key, d)], "victim": f"remove s c0 {hx(key)}", "key": None, "data": None, "algo": "sha256", "kind": "remove", "others": others},
         {"setup": base + [w_oneshot("s", "sha256", key, d)], "victim": "list c0", "key": key, "data": d, "algo": "sha256", "kind": "list", "others": others},
         {"setup": base + [w_oneshot("s", "sha256", key, d)], "victim": "clear s c0", "key": None, "data": None, "algo": "sha256", "kind": "clear", "others": {}},
@@ -986,6 +994,13 @@ def leg_concurrent(r, rounds, flavours, procs=4, ops_per_proc=40):
 # ---------------------------------------------------------------------------------------------
 # flavour equivalence (C12): one program, four executions
 # ---------------------------------------------------------------------------------------------
+
+def copy_tree(src, dst):
+    """A copy of a prepared scratch directory that keeps symlinks AND hard links as they are (`shutil.copytree` turns
+    two names of one inode into two files - and a destination that is a hard link of the content file into a bystander)."""
+    import subprocess
+    subprocess.run(["cp", "-a", src, dst], check=True)
+
 
 def runtime_channel_hit(r):
     """strace counts `when=N` per thread: besides the filesystem call aimed at, the N-th call of that name of ANOTHER
@@ -1203,7 +1218,7 @@ def leg_short_write(r, flavour, n_cases):
             limits.append(max(bsize + 150, len(new) // 2))
         for lim in limits:
             sc2 = scratch + f"-{lim}"
-            shutil.copytree(scratch, sc2, symlinks=True)
+            copy_tree(scratch, sc2)
             out = _run_limited(flavour, [victim], sc2, limit=lim)
             probe = ["dump c0", f"metadata s c0 {hx(key)}", f"metadata a c0 {hx(key)}", f"read s c0 {hx(key)}",
                      f"read a c0 {hx(b'other')}", victim, f"read s c0 {hx(key)}", "dump c0/tmp",
